@@ -49,6 +49,28 @@ fn check_line_like(acc: &mut Acc, idx: usize, v: &[IP], what: &str) {
     acc.class(format!("{} n{} zero-length-segments{} simple{}", what, v.len(), v.windows(2).filter(|w| w[0] == w[1]).count().min(2), simple));
     acc.sample(idx, || json!({"line": format!("{:?}", v), "length": l}));
     let close = |p: Point<f64>, e: (f64, f64)| (p.x() - e.0).abs() <= tol && (p.y() - e.1).abs() <= tol;
+    // the f32 instantiation at the clamped ends and in the middle (lattice coordinates are exact in f32; segment lengths are not): ratios at and beyond
+    // the ends give the end points, the middle is at half the arc length
+    if l > 0.0 {
+        let l32 = LineString::<f32>::new(v.iter().map(|p| Coord { x: p.0 as f32, y: p.1 as f32 }).collect());
+        for (r, exp) in [(0.0f32, at_arc(v, 0.0)), (-1.0, at_arc(v, 0.0)), (1.0, at_arc(v, l)), (2.0, at_arc(v, l)), (0.5, at_arc(v, 0.5 * l))] {
+            let forms: Vec<(&str, Result<Option<Point<f32>>, String>)> = vec![
+                ("point_at_ratio_from_start<f32>", guard(|| l32.point_at_ratio_from_start(&Euclidean, r))),
+                ("point_at_ratio_from_end<f32>(1-r)", guard(|| l32.point_at_ratio_from_end(&Euclidean, 1.0 - r))),
+                ("line_interpolate_point<f32> (deprecated)", guard(|| l32.line_interpolate_point(r))),
+            ];
+            for (op, res) in forms {
+                acc.evals += 1;
+                let ok = match &res {
+                    Ok(Some(p)) => (p.x() as f64 - exp.0).abs() <= 1e-5 * (1.0 + l) && (p.y() as f64 - exp.1).abs() <= 1e-5 * (1.0 + l),
+                    _ => false,
+                };
+                if !ok {
+                    acc.viol(format!("{} {} wrong at a clamped end or the middle", what, op), idx, || json!({"line": format!("{:?}", v), "op": op, "ratio": r, "expected": [exp.0, exp.1], "got": format!("{:?}", res)}));
+                }
+            }
+        }
+    }
     for r in ratios(v) {
         let rc = r.clamp(0.0, 1.0);
         let exp = at_arc(v, rc * l);
